@@ -203,7 +203,7 @@ Definition timing_ok (now ma : Z) (c : claims) : bool :=
   | Some eo, Some io =>
       (match eo with Some exp => now <? exp | None => true end) &&
       (match io with
-       | Some iat => negb ((0 <? ma) && (ma <? wrap64 (now - iat)))
+       | Some iat => negb ((0 <? ma) && (iat <? wrap64 (now - ma)))   (* int64 now-maxAge; no now-iat, which could overflow *)
        | None => true
        end)
   | _, _ => false
